@@ -537,7 +537,7 @@ pub fn format_number(value_original: f64, format: &str, locale: &Locale) -> Form
                                     };
                                     let sep = if use_group_separator(
                                         p.use_thousands,
-                                        ln - digit_index,
+                                        digit_count - index,
                                         &group_sizes,
                                     ) {
                                         &group_separator
